@@ -593,3 +593,186 @@ class HDF5AppendTracks(Contract):
         l = LoopSpec(inv=self._inv)
         l.split = lambda cx, cxb: [('cur', cx.g('g') == cxb.range_index(1)), ('other', Not(cx.g('g') == cxb.range_index(1)))]
         return {'pos#0': l}
+
+
+# =========================================================================== HDF5 start distribution: HDF5File::readPhaseSpace
+class ReadPhaseSpace(Contract):
+    """readPhaseSpace(fname, qmin,qmax,pmin,pmax, oclh, Qb, Ib_unscaled, bl, dE, use_step): the file is hostile input (C17):
+    /PhaseSpace/data may have ANY rank and ANY extents.  No value is used that was not set, no vector is indexed outside its
+    size, no division by zero, every extent array handed to the HDF5 library has as many entries as the rank it is used with.
+    On normal return the phase space is single-bunch (PhaseSpace::nb == 1), built with the charge and current of THIS run
+    (the parameters Qb, Ib_unscaled; C10) on a grid whose size is the one stored in the file."""
+    name = 'vfps::HDF5File::readPhaseSpace'
+    tu = 'src/IO/HDF5File.cpp'
+    params = ['fname', 'qmin', 'qmax', 'pmin', 'pmax', 'oclh', 'Qb', 'Ib_unscaled', 'bl', 'dE', 'use_step']
+    tags = {'C17', 'C10'}
+    ghosts = {'k': 'int', 'n': 'int', 'x': 'int'}
+    aux_tus = [('src/PS/PhaseSpace.cpp', 'vfps::')]
+    RANK = 'ghost.h5.rank'
+    replay = lambda self, o, model, pid: {'harness': 'h5start_replay', 'runs': [['all']], 'hdf5': True}
+
+    def requires(self, cx):
+        return [('axes', And(cx.a('qmax') > cx.a('qmin'), cx.a('pmax') > cx.a('pmin')))]
+
+    def assigns(self, cx):
+        return [('s', 'ghost.*'), ('s', 'vfps::PhaseSpace::*'), ('r', 'ghost.*')]
+
+    @property
+    def calls(self):
+        from .ps import PhaseSpaceCtor12
+        U64 = parse_type_str('unsigned long')
+
+        def opaque_obj(ex, n, st, objn, argn, this_override=None):
+            for a in argn:
+                try:
+                    ex.ev(a, st)
+                except ExtractionError:
+                    pass
+            return ObjRef(this_override or 'tmp:h5', 'H5::Object')
+
+        def rank_of(st):
+            if self.RANK not in st.scal:
+                v = IntV(z3.Int(self.RANK), parse_type_str('int'))
+                st.scal[self.RANK] = v
+                st.assume(And(v.t >= 0, v.t <= 32))         # H5S_MAX_RANK
+            return st.scal[self.RANK]
+
+        def ndims(ex, n, st, objn, argn, this_override=None):
+            return rank_of(st)
+
+        def extent_dims(ex, n, st, objn, argn, this_override=None):
+            # getSimpleExtentDims(dims, maxdims): writes rank entries — whatever the file says — through dims
+            p = ex.ev(argn[0], st)
+            r = rank_of(st).t
+            if not isinstance(p, PtrV) or p.region is None:
+                raise ExtractionError('readPhaseSpace: getSimpleExtentDims target is not a buffer')
+            ex.safe(st, 'h5-extent-buffer', And(p.off == 0, st.len_of(p.region) >= r), 'buffer receiving the extents must have one entry per dimension')
+            st.havoc_region(p.region)
+            a = st.array(p.region, '', U64)
+            kk = z3.Int('k!dims')
+            # extents are non-negative 64-bit numbers
+            ex.elem_inv[(p.region, '')] = lambda s_, k_, v_: And(v_ >= 0, v_ < 2 ** 64)
+            ex.logw(('r', p.region))
+            return rank_of(st)
+
+        def space_ctor(ex, n, st, objn, argn, this_override=None):
+            # H5::DataSpace(rank, dims, maxdims): reads `rank` entries of dims
+            if len(argn) >= 2:
+                r = ex.ev(argn[0], st)
+                p = ex.ev(argn[1], st)
+                if isinstance(p, PtrV):
+                    ex.safe(st, 'h5-dataspace-dims', And(r.t >= 0, z3.BoolVal(p.region is not None) if True else True,
+                                                         (st.len_of(p.region) >= p.off + r.t) if p.region is not None else (r.t == 0)),
+                            'H5::DataSpace(rank, dims): dims must hold rank entries')
+            return ObjRef(this_override or 'tmp:space', 'H5::DataSpace')
+
+        def hyperslab(ex, n, st, objn, argn, this_override=None):
+            r = rank_of(st).t
+            for a in argn[1:3]:
+                p = ex.ev(a, st)
+                if isinstance(p, PtrV):
+                    ex.safe(st, 'h5-hyperslab-arrays', (st.len_of(p.region) >= p.off + r) if p.region is not None else (r == 0),
+                            'selectHyperslab(count, start): both arrays must hold one entry per dimension of the file data space')
+            return VoidV()
+
+        def set_size(ex, n, st, objn, argn, this_override=None):
+            x, b = ex.ev(argn[0], st), ex.ev(argn[1], st)
+            U32 = parse_type_str('unsigned int')
+            xs = ex.wrap(x.t, U32)
+            bs = ex.wrap(b.t, U32)
+            for path, val in ((PS_NX, xs), (PS_NY, xs), (PS_NB, bs), (PS_NXY, ex.wrap(xs * xs, U32)), (PS_NXYB, ex.wrap(xs * xs * bs, U32))):
+                st.scal[path] = IntV(val, U32)
+                ex.logw(('s', path))
+            return VoidV()
+
+        def npoints(ex, n, st, objn, argn, this_override=None):
+            from vf.state import State
+            v = State.fresh('h5.selected_points', z3.IntSort())
+            st.assume(v >= 0)
+            return IntV(v, parse_type_str('long'))
+
+        def assign_dispatch(ex, n, st, objn, argn, this_override=None):
+            t = (objn.get('type', {}).get('desugaredQualType') or objn.get('type', {}).get('qualType', ''))
+            if 'H5::' in t:
+                return VoidV()
+            if 'vector' in t:
+                o = ex.ev_obj(objn, st)
+                il = models.find_node(argn[0], 'InitListExpr')
+                if il is None:
+                    raise ExtractionError('readPhaseSpace: vector assignment that is not a braced list')
+                items = [c for c in il.get('inner', [])]
+                while len(items) == 1 and items[0].get('kind') == 'InitListExpr':
+                    items = items[0].get('inner', [])
+                vals = [ex.ev(c, st) for c in items]
+                st.length[o.name] = I(len(vals))
+                arr = z3.K(z3.IntSort(), z3.IntVal(0))
+                for i_, v in enumerate(vals):
+                    arr = z3.Store(arr, i_, v.t)
+                st.arr[(o.name, '')] = arr
+                st.leafct[(o.name, '')] = U64
+                ex.logw(('r', o.name)); ex.logw(('len', o.name))
+                return o
+            raise ExtractionError(f'readPhaseSpace: assignment to {t} not modelled')
+        noop = lambda ex, n, st, objn, argn, this_override=None: VoidV()
+
+        def h5_any(ex, n, st, objn, argn, this_override=None):
+            # any other member call on an HDF5 object: may write through pointer arguments (the pointee becomes arbitrary),
+            # returns an arbitrary value of its result type
+            from vf.state import State
+            from vf.vcg import LVar, LScal
+            for a in argn:
+                b = a
+                while b.get('kind') in ('ImplicitCastExpr', 'ParenExpr', 'CStyleCastExpr', 'CXXStaticCastExpr', 'CXXReinterpretCastExpr'):
+                    b = b['inner'][0]
+                if b.get('kind') == 'UnaryOperator' and b.get('opcode') == '&':
+                    l = ex.lv(b['inner'][0], st)
+                    cur = ex.load(l, st) if not (isinstance(l, LVar) and st.env.get(l.vid) is None) else None
+                    if cur is not None:
+                        ex.store(l, ex.havoc_val(st, cur, 'h5.read'), st)
+                    continue
+                try:
+                    v = ex.ev(a, st)
+                except ExtractionError:
+                    continue
+                if isinstance(v, PtrV) and v.region is not None:
+                    st.havoc_region(v.region)
+                    ex.logw(('r', v.region))
+            rt = parse_type(n['type']) if n.get('type') else None
+            if rt is None or rt.kind == 'void':
+                return VoidV()
+            if rt.kind == 'int':
+                t = State.fresh('h5.result', z3.IntSort())
+                from vf.state import range_fact
+                st.assume(range_fact(t, rt))
+                return IntV(t, rt)
+            if rt.kind == 'float':
+                return RealV(State.fresh('h5.result', z3.RealSort()), rt)
+            return ObjRef('tmp:h5', 'H5::Object')
+        return {'*lib:H5::': h5_any, 'read': h5_any, 'ctor:H5::H5File': opaque_obj, 'ctor:H5::DataSet': opaque_obj, 'ctor:H5::DataType': opaque_obj, 'ctor:H5::DataSpace': space_ctor,
+                'openDataSet': opaque_obj, 'getSpace': opaque_obj, 'getSimpleExtentNdims': ndims, 'getSimpleExtentDims': extent_dims,
+                'selectHyperslab': hyperslab, 'getSelectNpoints': npoints, 'H5check_version': noop, 'H5open': noop,
+                'setSize': set_size, 'operator=': assign_dispatch,
+                'make_unique': MakeUniquePS(),
+                'ctor:vfps::HDF5FileException': opaque_obj}
+
+    def ensures(self, cx):
+        nx, ny, nb = ps_globals(cx)
+        r = cx.ret
+        if not isinstance(r, ObjRef):
+            return [('returns_phase_space', {'C17'}, z3.BoolVal(False))]
+        return [('single_bunch', {'C17', 'C10'}, nb == 1),
+                ('charge_and_current_of_this_run', {'C10'}, And(cx.rf(r.name + '.charge') == cx.a('Qb'), cx.rf(r.name + '.current') == cx.a('Ib_unscaled'))),
+                ('shape', {'C17'}, declare_ps(cx, r.name))]
+
+
+class MakeUniquePS(Use):
+    """std::make_unique<PhaseSpace>(qmin,qmax,qscale,pmin,pmax,pscale,oclh,charge,current,filling[,zoom[,data]])"""
+
+    def __init__(self):
+        from .ps import PhaseSpaceCtor12Use
+        Use.__init__(self, PhaseSpaceCtor12Use(), inst=lambda cx: [{'k': cx.ghost_of('k'), 'n': cx.ghost_of('n'), 'x': cx.ghost_of('x')}])
+
+    def __call__(self, ex, n, st, objn, argn, this_override=None):
+        # defaulted trailing parameters of the constructor: zoom = 1, data = nullptr
+        Use.__call__(self, ex, n, st, None, argn, this_override='heap:ps')
+        return ObjRef('heap:ps', 'std::unique_ptr<vfps::PhaseSpace>', null=z3.BoolVal(False))
